@@ -59,6 +59,19 @@ Definition full_thread_f (lie : bool) (f : fmt) (o : opts) (sc : spancfg) (w : w
   (plans : list (list script)) :=
   sink_log_f current_tee_both (Cfg current_policy lie) meta_of w (plans_of plans) (thread_events f o sc th ops).
 
+(** Pretty: byte level too; [current_pretty_fallback] says which spans it walks for an explicit root. *)
+Definition current_pretty_fallback : bool := Gen_fmtbuf.pretty_root_falls_back.
+Definition pscope (is_root : bool) (event_scope current_scope : list span) : list span :=
+  pretty_scope current_pretty_fallback is_root event_scope current_scope.
+
+Definition eval_pretty_f (lie : bool) (o : opts) (sc : spancfg) (w : wexp) (th : thr) (ops : list op)
+  (plans : list (list script)) :=
+  map enc_fentry (sink_log_f current_tee_both (Cfg current_policy lie) meta_of w (plans_of plans) (thread_events_pretty o sc th ops)).
+
+Definition full_pretty_f (lie : bool) (o : opts) (sc : spancfg) (w : wexp) (th : thr) (ops : list op)
+  (plans : list (list script)) :=
+  sink_log_f current_tee_both (Cfg current_policy lie) meta_of w (plans_of plans) (thread_events_pretty o sc th ops).
+
 Definition eval_opaque_f (lie : bool) (w : wexp) (evs : list (event N meta)) (plans : list (list script)) :=
   map enc_fentry (sink_log_f current_tee_both (Cfg current_policy lie) (fun m => m) w (plans_of plans) evs).
 
